@@ -65,12 +65,25 @@ def addition(cx, kinds):
     datas = [c.data.copy() for c in comps]
     lambs = [c.lamb for c in comps]
     plist = [dict(p) for c in comps for p in c.params]
+    plist_keys = [list(c.params[0].keys()) for c in comps]
     total = datas[0]
     for d in datas[1:]:
         total = total + d
     ltot = lambs[0]
     for l in lambs[1:]:
         ltot = ltot + l
+
+    # every analytic component is reproduced by the parameter list it carries
+    for i, (c, k) in enumerate(zip(comps, kinds)):
+        if k != "VD":
+            r = c.copy()
+            cx.assume_denominators_nonzero("parameters away from the poles of the analytic formulas")
+            cx.prove("component_rebuilt[%d]/params_keys" % i,
+                     len(r.params) == 1 and sorted(r.params[0].keys()) == sorted(plist_keys[i]))
+            cx.prove_eq("component_rebuilt[%d]/data" % i, r.data, datas[i])
+            cx.prove_eq("component_rebuilt[%d]/lamb" % i, r.lamb, lambs[i])
+            if cx.failed_so_far():
+                return
 
     def check(label, f):
         cx.prove_eq(label + "/data", f.data, total)
